@@ -5,6 +5,7 @@ go 1.23.0
 require (
 	github.com/kercylan98/minotaur v0.0.0
 	github.com/panjf2000/ants/v2 v2.9.1
+	google.golang.org/protobuf v1.34.2
 )
 
 require (
@@ -37,7 +38,6 @@ require (
 	golang.org/x/text v0.16.0 // indirect
 	google.golang.org/genproto/googleapis/rpc v0.0.0-20240617180043-68d350f18fd4 // indirect
 	google.golang.org/grpc v1.64.1 // indirect
-	google.golang.org/protobuf v1.34.2 // indirect
 )
 
 replace github.com/kercylan98/minotaur => /repo
